@@ -2,8 +2,8 @@ package main
 
 import (
 	"fmt"
-	"go/types"
 	"go/token"
+	"go/types"
 	"strings"
 
 	"golang.org/x/tools/go/ssa"
@@ -812,10 +812,16 @@ func txEndRule(c *Ctx, rule string, re *Reach) {
 					if !ok {
 						return
 					}
-					if isEnd(d) || func() bool { h := calleeFunc(&d.Call); return h != nil && c.w.inModule(h) && c.fc.mustPass(h, isEnd, 1) }() {
+					if isEnd(d) || func() bool {
+						h := calleeFunc(&d.Call)
+						return h != nil && c.w.inModule(h) && c.fc.mustPass(h, isEnd, 1)
+					}() {
 						dEnds = append(dEnds, d)
 					}
-					if isDBClose(d) || func() bool { h := calleeFunc(&d.Call); return h != nil && c.w.inModule(h) && c.fc.mayContain(h, isDBClose, 1) }() {
+					if isDBClose(d) || func() bool {
+						h := calleeFunc(&d.Call)
+						return h != nil && c.w.inModule(h) && c.fc.mayContain(h, isDBClose, 1)
+					}() {
 						dCloses = append(dCloses, d)
 					}
 				})
